@@ -11,7 +11,7 @@
 
 use std::{
     cmp::min,
-    collections::{HashMap, HashSet},
+    collections::{HashMap, HashSet, VecDeque},
     io::{IoSlice, Write as _},
     time::{Duration, Instant},
 };
@@ -607,6 +607,11 @@ impl H2ConnectionConfig {
 /// The actual per-connection cap is computed from `connection_config.max_concurrent_streams`.
 #[cfg(test)]
 const DEFAULT_MAX_PENDING_WINDOW_UPDATES: usize = 1 + DEFAULT_MAX_CONCURRENT_STREAMS as usize * 4;
+
+/// How many of the streams this endpoint reset last are remembered once they
+/// are retired, so that frames the peer sent before it saw the RST_STREAM are
+/// recognised as such (RFC 9113 §5.1).
+const MAX_RECENTLY_RESET_STREAMS: usize = 128;
 
 /// Maximum number of pending RST_STREAM frames before triggering GOAWAY.
 /// When a peer causes excessive RST_STREAM queueing (e.g. rapid stream creation
@@ -1781,6 +1786,11 @@ pub struct ConnectionH2<Front: SocketHandler> {
     /// RFC 9113 §6.8: tracks stream IDs for which RST_STREAM has already been sent,
     /// preventing duplicate RST_STREAM frames on the wire.
     pub rst_sent: HashSet<StreamId>,
+    /// The last streams retired after this endpoint sent RST_STREAM for them
+    /// (bounded by [`MAX_RECENTLY_RESET_STREAMS`]). RFC 9113 §5.1: the peer may
+    /// have sent frames on them before the RST_STREAM arrived; those must not
+    /// be treated as frames on a stream the peer closed.
+    pub recently_reset: VecDeque<StreamId>,
     /// Lifetime counter of RST_STREAM frames queued (pending + already flushed).
     /// Used to detect sustained misbehavior even when writable() drains the
     /// pending queue between readable() calls.
@@ -1993,6 +2003,7 @@ impl<Front: SocketHandler> ConnectionH2<Front> {
             settings_sent_at: None,
             pending_rst_streams: Vec::new(),
             rst_sent: std::collections::HashSet::new(),
+            recently_reset: VecDeque::new(),
             total_rst_streams_queued: 0,
             priorities_buf: Vec::new(),
             close_notify_sent: false,
@@ -2032,6 +2043,12 @@ impl<Front: SocketHandler> ConnectionH2<Front> {
         } else {
             false
         }
+    }
+
+    /// This endpoint sent RST_STREAM for the stream (still queued, or retired
+    /// recently): the peer may not have seen it yet.
+    fn reset_by_us(&self, stream_id: StreamId) -> bool {
+        self.rst_sent.contains(&stream_id) || self.recently_reset.contains(&stream_id)
     }
 
     fn expect_header(&mut self) {
@@ -2274,6 +2291,19 @@ impl<Front: SocketHandler> ConnectionH2<Front> {
                                     {
                                         return result;
                                     }
+                                }
+                                FrameType::Headers if self.reset_by_us(header.stream_id) => {
+                                    // RFC 9113 §5.1: the peer sent this header
+                                    // block before our RST_STREAM reached it.
+                                    // `handle_headers_frame` decodes it, to
+                                    // keep the HPACK state in step, and drops it.
+                                    debug!(
+                                        "{} HEADERS on stream {} which we reset, ignoring them",
+                                        log_context!(self),
+                                        header.stream_id
+                                    );
+                                    self.flood_detector.glitch_count += 1;
+                                    check_flood_or_return!(self);
                                 }
                                 _ => {
                                     // RFC 9113 §5.1: HEADERS or other frames on a
@@ -3504,7 +3534,12 @@ impl<Front: SocketHandler> ConnectionH2<Front> {
                 stream_id
             );
         }
-        self.rst_sent.remove(&stream_id);
+        if self.rst_sent.remove(&stream_id) {
+            if self.recently_reset.len() >= MAX_RECENTLY_RESET_STREAMS {
+                self.recently_reset.pop_front();
+            }
+            self.recently_reset.push_back(stream_id);
+        }
         self.stream_last_activity_at.remove(&stream_id);
         self.stream_fc_stalled_since.remove(&stream_id);
         self.stream_fc_stalled_progress.remove(&stream_id);
@@ -5473,6 +5508,26 @@ impl<Front: SocketHandler> ConnectionH2<Front> {
         // can this fail?
         let stream_id = headers.stream_id;
         let Some(global_stream_id) = self.streams.get(&stream_id).copied() else {
+            if self.reset_by_us(stream_id) {
+                // Let through by `handle_header_state`: a header block that
+                // crossed our RST_STREAM. It still updates the HPACK dynamic
+                // table shared by the whole connection; its fields are ignored.
+                let buffer = headers
+                    .header_block_fragment
+                    .data(self.zero.storage.buffer());
+                let status = self.decoder.decode_with_cb(buffer, |_, _| {});
+                self.zero.storage.clear();
+                self.attribute_bytes_to_overhead();
+                if status.is_err() {
+                    error!(
+                        "{} invalid header block on stream {} which we reset",
+                        log_context!(self),
+                        stream_id
+                    );
+                    return self.goaway(H2Error::CompressionError);
+                }
+                return MuxResult::Continue;
+            }
             error!(
                 "{} Handling Headers frame with no attached stream {:#?}",
                 log_context!(self),
